@@ -58,12 +58,26 @@ theorem scalar_flat {t : Ty} (h : scalarTy t = true) : flatTy t = true := by
 theorem okPrim_scalar {p : Prim} {ty : Ty} (h : okPrim p ty = true) : flatTy ty = true := by
   cases p <;> cases ty <;> simp [okPrim] at h <;> rfl
 
-theorem immOK_scalar {env : Env} {Γ : Ctx} {i : Imm} (h : immOK env Γ i = true) : flatTy i.ty = true := by
+theorem scalarEq_scalar_right' {a b : Ty} (h : scalarEq a b = true) : flatTy b = true := by
+  have := scalarEq_eq h; subst this; exact scalarEq_flat h
+
+theorem immOK_scalar {env : Env} {Γ : Ctx} {i : Imm} (h : immOK env file G Γ i = true) : flatTy i.ty = true := by
   cases i with
   | var x ty =>
     simp only [immOK] at h
     cases hl : lookupTy Γ x with
-    | none => rw [hl] at h; simp at h
+    | none =>
+      rw [hl] at h; simp only at h
+      cases ty <;> simp only [fnValOK] at h <;> try (cases h; done)
+      rename_i ps r
+      simp only [Bool.and_eq_true] at h
+      cases hf : (fnSigs file G).find? (·.1 == x) with
+      | none => rw [hf] at h; exact absurd h.2 (by simp)
+      | some e =>
+        rw [hf] at h; simp only [Bool.and_eq_true] at h
+        have h1 := scalarEqs_eq h.2.1; have h2 := scalarEq_eq h.2.2
+        simp only [Imm.ty, flatTy, Bool.and_eq_true]
+        exact ⟨by rw [← h1]; exact scalarEqs_self_flat (by rw [h1] at h ⊢; exact h.2.1), scalarEq_scalar_right' h.2.2⟩
     | some t => rw [hl] at h; simp only at h; have := scalarEq_eq h; subst this; exact scalarEq_flat h
   | prim p ty => exact okPrim_scalar h
   | tag i t =>
@@ -92,7 +106,16 @@ theorem fragC_scalar {env : Env} {file : AFile} {G : List String} {Γ : Ctx} {K 
     simp only [fragC, Bool.or_eq_true] at h
     cases f with
     | var name fty =>
-      rcases h with (h | h) | h
+      rcases h with ((h | h) | h) | h
+      rotate_left 3
+      · simp only [localCallOK] at h
+        cases hlk : lookupTy Γ name with
+        | none => rw [hlk] at h; cases h
+        | some t =>
+          rw [hlk] at h
+          cases t <;> simp only at h <;> try (cases h; done)
+          simp only [Bool.and_eq_true] at h
+          exact scalarEq_flat h.2
       · simp only [callOK, Bool.and_eq_true] at h
         obtain ⟨_, hcase⟩ := h
         cases hs : builtinSig name with
@@ -152,8 +175,8 @@ theorem fragC_scalar {env : Env} {file : AFile} {G : List String} {Γ : Ctx} {K 
                 · rw [if_pos h2] at hif; simp only [Bool.and_eq_true] at hif; exact scalarEq_flat hif.2
                 · rw [if_neg h2] at hif; cases hif
             | _ => rw [haty] at hcase; cases hcase
-    | prim p t => simp [callOK, refCallOK, arrCallOK] at h
-    | tag i t => simp [callOK, refCallOK, arrCallOK] at h
+    | prim p t => simp [callOK, refCallOK, arrCallOK, localCallOK] at h
+    | tag i t => simp [callOK, refCallOK, arrCallOK, localCallOK] at h
   | ite c t e ty => simp only [fragC, Bool.and_eq_true] at h; exact scalarEq_scalar_right h.1.2
   | «while» c b ty => simp only [fragC, Bool.and_eq_true] at h; exact scalarEq_flat h.2
   | matchE s arms d ty => simp only [fragC, Bool.and_eq_true] at h; exact h.1.2
@@ -224,7 +247,7 @@ theorem let_body {env : Env} {η η1 : Hp} {file : AFile} {G : List String} {P :
     (hinv : GInv Bad ((.varDecl (vn x) T init :: d1) ++ (compileA env m st2 body).1) gρ)
     (hrel0 : EnvRel env η Γ ρ gρ) (hle1 : η.le η1) (hkrel : KRel K ρ) (h3 : toGV env η1 vv = some gv) (h4 : HasTy env η1 vv tx) (hw1 : WRel env η1 w1 gw1)
     (hfb : fragA env file G ((x, tx) :: Γ) (eraseK K x) body = true) (htgt : TgtOK m Γ gρ (aTy body)) (hus : "_" ∈ Bad)
-    (hcal : ∀ c, c ∈ calleesA body → c ∈ Bad) :
+    (hfx : FCtx file G Bad η) (hcal : ∀ c, c ∈ calleesA (x :: Γ.map (·.1)) body → c ∈ Bad) :
     Concl env η F ((.varDecl (vn x) T init :: d1) ++ (compileA env m st2 body).1) m gρ gw (aTy body)
       (Sem.eval n P ((x, vv) :: ρ) w1 body.toExpr) := by
   have hrel : EnvRel env η1 Γ ρ gρ := hrel0.mono hle1
@@ -272,7 +295,7 @@ theorem let_body {env : Env} {η η1 : Hp} {file : AFile} {G : List String} {P :
     rintro (h | h)
     · exact hD1disj _ h htk
     · simp only [Goml.Dce.keys_cons, Goml.Dce.keys_nil, List.mem_singleton] at h; exact hfresh (h ▸ htk)
-  have hB := ha m st2 body η1 ((x, tx) :: Γ) (eraseK K x) ((x, vv) :: ρ) w1 (D1 ++ (vn x, gv) :: gρ) gw1 Bad hfb hrel2 (hkrel.bind x vv) hw1 hinv2 htgt2 hus hcal
+  have hB := ha m st2 body η1 ((x, tx) :: Γ) (eraseK K x) ((x, vv) :: ρ) w1 (D1 ++ (vn x, gv) :: gρ) gw1 Bad hfb hrel2 (hkrel.bind x vv) hw1 hinv2 htgt2 hus (hfx.mono hle1) hcal
   revert hB
   cases hres : Sem.eval n P ((x, vv) :: ρ) w1 body.toExpr with
   | ok v2 w2 =>
@@ -300,17 +323,17 @@ theorem let_body {env : Env} {η η1 : Hp} {file : AFile} {G : List String} {P :
 theorem stepA {env : Env} {file : AFile} {G : List String} {P : Prog} {F : GFile} {n : Nat}
     (hc1 : SimC env file G P F (n + 1)) (hv : SimV env file G P F n) (hc : SimC env file G P F n)
     (ha : SimA env file G P F n) : SimA env file G P F (n + 1) := by
-  intro m st e η Γ K ρ w gρ gw Bad hfrag hrel hkrel hw hinv htgt hus hcal
+  intro m st e η Γ K ρ w gρ gw Bad hfrag hrel hkrel hw hinv htgt hus hfx hcal
   cases e with
   | ret c =>
     simp only [compileA, AExpr.toExpr, aTy, fragA, calleesA] at *
-    exact hc1 m st c η Γ K ρ w gρ gw Bad hfrag hrel hkrel hw hinv htgt hus hcal
+    exact hc1 m st c η Γ K ρ w gρ gw Bad hfrag hrel hkrel hw hinv htgt hus hfx hcal
   | letE x v body ty =>
     simp only [fragA, Bool.and_eq_true] at hfrag
     obtain ⟨hfv, hfb⟩ := hfrag
     simp only [AExpr.toExpr, aTy] at htgt ⊢
-    have hcalv : ∀ c, c ∈ calleesC v → c ∈ Bad := fun c hc' => hcal c (by simp [calleesA, hc'])
-    have hcalb : ∀ c, c ∈ calleesA body → c ∈ Bad := fun c hc' => hcal c (by simp [calleesA, hc'])
+    have hcalv : ∀ c, c ∈ calleesC (Γ.map (·.1)) v → c ∈ Bad := fun c hc' => hcal c (by simp [calleesA, hc'])
+    have hcalb : ∀ c, c ∈ calleesA (x :: Γ.map (·.1)) body → c ∈ Bad := fun c hc' => hcal c (by simp [calleesA, hc'])
     have hsc := fragC_scalar hfv
     rw [Sem.eval]
     by_cases hctl : isCtl v = true
@@ -342,7 +365,7 @@ theorem stepA {env : Env} {file : AFile} {G : List String} {P : Prog} {F : GFile
       have htgtd : TgtOK (.assign (rn x)) Γ ((vn x, zero F (goTy v.annTy)) :: gρ) v.annTy := by
         refine ⟨by rw [← vn_def]; simp, fun y ty hy => ?_⟩
         rw [← vn_def]; exact hne y ty hy
-      have hD := hc (.assign (rn x)) st1 v η Γ K ρ w _ gw Bad hfv hrel1 hkrel hw (hd ▸ hinvd) htgtd hus hcalv
+      have hD := hc (.assign (rn x)) st1 v η Γ K ρ w _ gw Bad hfv hrel1 hkrel hw (hd ▸ hinvd) htgtd hus hfx hcalv
       rw [hd] at hD
       revert hD
       cases hres : Sem.eval n P ρ w v.toExpr with
@@ -353,7 +376,7 @@ theorem stepA {env : Env} {file : AFile} {G : List String} {P : Prog} {F : GFile
           simp only [post]; rw [← vn_def]; exact update_cons_self _ _ _ _
         rw [hup] at hb
         exact let_body ha m d.2 x v.annTy body Γ K ρ gρ gw Bad _ _ d.1 D1 vv gv w1 gw1 (block_cons hvd hb) hD1 hinv hrel hle1 hkrel h3 h4 h5
-          hfb htgt hus hcalb
+          hfb htgt hus hfx hcalb
       | fail fl w1 =>
         cases fl with
         | panic k =>
@@ -368,7 +391,7 @@ theorem stepA {env : Env} {file : AFile} {G : List String} {P : Prog} {F : GFile
       have hctl' : isCtl v = false := by simpa using hctl
       simp only [compileA, hctl', Bool.false_eq_true, if_false, bindSimple_shape x hfv] at hinv ⊢
       generalize hst1 : st.check (okBindSimple env v) = st1 at hinv ⊢
-      have hV := hv v η Γ K ρ w gρ gw Bad hctl' hfv hrel hkrel hw hinv.goodK hcalv
+      have hV := hv v η Γ K ρ w gρ gw Bad hctl' hfv hrel hkrel hw hinv.goodK hfx hcalv
       revert hV
       cases hres : Sem.eval n P ρ w v.toExpr with
       | ok vv w1 =>
@@ -377,7 +400,7 @@ theorem stepA {env : Env} {file : AFile} {G : List String} {P : Prog} {F : GFile
         have hvd : StmtS F gρ gw (.varDecl (vn x) (goTy v.annTy) (some (compileCExpr env v)))
             (.ok ((vn x, gv) :: gρ, .normal) gw1) := stmt_varDecl_some (flat_not_absurd hsc) he
         exact let_body ha m st1 x v.annTy body Γ K ρ gρ gw Bad _ _ [] [] vv gv w1 gw1 (block_cons hvd block_nil)
-          (fun y hy => by cases hy) hinv hrel hle1 hkrel h3 h4 h5 hfb htgt hus hcalb
+          (fun y hy => by cases hy) hinv hrel hle1 hkrel h3 h4 h5 hfb htgt hus hfx hcalb
       | fail fl w1 =>
         cases fl with
         | panic k =>
@@ -412,8 +435,8 @@ theorem let_order {env : Env} {η : Hp} {file : AFile} {G : List String} {P : Pr
     (m : Mode) (st : St) (x : String) (v : CExpr) (body : AExpr) (ty : Ty) (Γ : Ctx) (K : KCtx) (ρ : Sem.Env) (w : World)
     (gρ : GEnv) (gw : GWorld) (Bad : List String)
     (hfrag : fragA env file G Γ K (.letE x v body ty) = true) (hrel : EnvRel env η Γ ρ gρ) (hkrel : KRel K ρ) (hw : WRel env η w gw)
-    (hinv : GInv Bad (compileA env m st (.letE x v body ty)).1 gρ) (hus : "_" ∈ Bad)
-    (hcal : ∀ c, c ∈ calleesA (.letE x v body ty) → c ∈ Bad) :
+    (hinv : GInv Bad (compileA env m st (.letE x v body ty)).1 gρ) (hus : "_" ∈ Bad) (hfx : FCtx file G Bad η)
+    (hcal : ∀ c, c ∈ calleesA (Γ.map (·.1)) (.letE x v body ty) → c ∈ Bad) :
     match Sem.eval n P ρ w v.toExpr with
     | .ok vv w1 => ∃ η1, η.le η1 ∧ ∃ env1 gv gw1, BlockS F gρ gw (letPrefix env st x v) (.ok (env1, .normal) gw1) ∧ WRel env η1 w1 gw1 ∧
         lookupG env1 (vn x) = some gv ∧ toGV env η1 vv = some gv
@@ -421,7 +444,7 @@ theorem let_order {env : Env} {η : Hp} {file : AFile} {G : List String} {P : Pr
     | _ => True := by
   simp only [fragA, Bool.and_eq_true] at hfrag
   obtain ⟨hfv, hfb⟩ := hfrag
-  have hcalv : ∀ c, c ∈ calleesC v → c ∈ Bad := fun c hc' => hcal c (by simp [calleesA, hc'])
+  have hcalv : ∀ c, c ∈ calleesC (Γ.map (·.1)) v → c ∈ Bad := fun c hc' => hcal c (by simp [calleesA, hc'])
   have hsc := fragC_scalar hfv
   rw [compileA_let] at hinv
   have hinvP := hinv.left
@@ -445,7 +468,7 @@ theorem let_order {env : Env} {η : Hp} {file : AFile} {G : List String} {P : Pr
     have htgtd : TgtOK (.assign (rn x)) Γ ((vn x, zero F (goTy v.annTy)) :: gρ) v.annTy := by
       refine ⟨by rw [← vn_def]; simp, fun y ty hy => ?_⟩
       rw [← vn_def]; exact hne y ty hy
-    have hD := hc (.assign (rn x)) _ v η Γ K ρ w _ gw Bad hfv hrel1 hkrel hw (hd ▸ hinvd) htgtd hus hcalv
+    have hD := hc (.assign (rn x)) _ v η Γ K ρ w _ gw Bad hfv hrel1 hkrel hw (hd ▸ hinvd) htgtd hus hfx hcalv
     rw [hd] at hD
     revert hD
     cases hres : Sem.eval n P ρ w v.toExpr with
@@ -468,7 +491,7 @@ theorem let_order {env : Env} {η : Hp} {file : AFile} {G : List String} {P : Pr
       | stuck s => intro _; trivial
   · have hctl' : isCtl v = false := by simpa using hctl
     simp only [letPrefix, hctl', Bool.false_eq_true, if_false, bindSimple_shape x hfv] at hinvP ⊢
-    have hV := hv v η Γ K ρ w gρ gw Bad hctl' hfv hrel hkrel hw hinvP.goodK hcalv
+    have hV := hv v η Γ K ρ w gρ gw Bad hctl' hfv hrel hkrel hw hinvP.goodK hfx hcalv
     revert hV
     cases hres : Sem.eval n P ρ w v.toExpr with
     | ok vv w1 =>
